@@ -78,15 +78,19 @@ func c14R1(p *core.Prog, r *core.Report) {
 		return
 	}
 	name := p.FuncName(bc)
+	// the slow path (source read, target write) may live in an unexported helper of BlobCopy
+	scope := core.Helpers(bc, 2)
 	find := func(m string) []*ssa.Call {
 		var out []*ssa.Call
-		core.Calls(bc, func(c ssa.CallInstruction) {
-			if cal := core.Callee(c); cal != nil && core.IsModMethod(cal, ".", "RegClient", m) {
-				if call, ok := c.(*ssa.Call); ok {
-					out = append(out, call)
+		for _, f := range sortedFuncs(scope) {
+			core.Calls(f, func(c ssa.CallInstruction) {
+				if cal := core.Callee(c); cal != nil && core.IsModMethod(cal, ".", "RegClient", m) {
+					if call, ok := c.(*ssa.Call); ok {
+						out = append(out, call)
+					}
 				}
-			}
-		})
+			})
+		}
 		return out
 	}
 	gets, heads, mounts := find("BlobGet"), find("BlobHead"), find("BlobMount")
@@ -100,7 +104,7 @@ func c14R1(p *core.Prog, r *core.Report) {
 		pos := p.Pos(g.Pos())
 		reached := func(edges [][2]*ssa.BasicBlock) bool {
 			for _, e := range edges {
-				if (core.Reach{}).FromEdge(e[0], e[1])[g] {
+				if (core.DeepReach{Scope: scope}).FromEdge(e[0], e[1])[g] {
 					return true
 				}
 			}
@@ -127,7 +131,7 @@ func c14R1(p *core.Prog, r *core.Report) {
 			}
 			return false
 		}
-		r.Check(!(core.Reach{Stop: isHead}).FromEntry(bc)[g], rule, name, "HEAD on the target before any transfer", pos, "every path to the source read passes a HEAD of the blob in the target repository")
+		r.Check(!(core.DeepReach{Reach: core.Reach{Stop: isHead}, Scope: scope}).FromEntry(bc)[g], rule, name, "HEAD on the target before any transfer", pos, "every path to the source read passes a HEAD of the blob in the target repository")
 		// must pass the mount or the different-registry edge
 		isMount := func(in ssa.Instruction) bool {
 			for _, m := range mounts {
@@ -141,7 +145,7 @@ func c14R1(p *core.Prog, r *core.Report) {
 		for _, e := range boolCallEdges(bc, sameReg, false) {
 			diffReg[e] = true
 		}
-		seen := core.Reach{Stop: isMount, StopEdge: func(a, b *ssa.BasicBlock) bool { return diffReg[[2]*ssa.BasicBlock{a, b}] }}.FromEntry(bc)
+		seen := core.DeepReach{Reach: core.Reach{Stop: isMount, StopEdge: func(a, b *ssa.BasicBlock) bool { return diffReg[[2]*ssa.BasicBlock{a, b}] }}, Scope: scope}.FromEntry(bc)
 		r.Check(len(diffReg) > 0 && !seen[g], rule, name, "mount attempted on the same registry", pos, "every path to the source read passes the mount attempt or the edge on which source and target are on different registries")
 	}
 	// scheme/reg BlobMount: the request is unconditional
